@@ -19,7 +19,7 @@ from props import c04 as _c04
 
 ID = 'C07'
 LEVEL = 'fault_enumeration'
-RULE = ('Valid documents of every selectable map, envelope skeletons and raw strings, hit by 1..4 faults from a 24-kind '
+RULE = ('Valid documents of every selectable map, envelope skeletons and raw strings, hit by 1..4 faults from a 26-kind '
         'structural catalogue (delete/duplicate/swap/move/retag segment, truncate at segment or character, orphan trailers, '
         'nested headers, non-numeric/missing counts, extra elements/components, empty and blank-only segments, doubled '
         'terminators, over-long segments, byte flips, delimiters dropped into data, damaged ISA) plus the 24 envelope faults of '
@@ -42,7 +42,7 @@ COMPONENTS = {
 }
 STRUCT = ['seg_delete', 'seg_dup', 'seg_swap', 'seg_move', 'retag', 'retag_env', 'trunc_seg', 'trunc_char', 'extra_ele', 'extra_comp',
           'empty_seg', 'blank_seg', 'double_term', 'long_seg', 'byte_flip', 'delim_in_data', 'isa_damage', 'isa_version',
-          'drop_all_ele', 'gs_unknown_map', 'lowercase_id', 'inner_isa_short', 'bht_tspc', 'leading_blank']
+          'drop_all_ele', 'env_short', 'env_short', 'odd_value', 'odd_value', 'gs_unknown_map', 'lowercase_id', 'inner_isa_short', 'bht_tspc', 'leading_blank']
 ENTRY = ['validate', 'validate', 'validate', 'reader', 'context', 'context_loop']
 
 
@@ -61,6 +61,11 @@ def mutate(rng, segs, kind):
         return False
     body = [i for i in range(1, n)]
     i = rng.choice(body)
+    if kind in ('odd_value', 'drop_all_ele', 'extra_comp', 'extra_ele') and rng.random() < 0.5:
+        # bias to the segments whose values the reader itself interprets (counts, control numbers, HL / LX numbering)
+        special = [k for k in body if segs[k][0] in ('HL', 'LX', 'CLM', 'ST', 'SE', 'GS', 'GE', 'IEA', 'BHT')]
+        if special:
+            i = rng.choice(special)
     if kind == 'seg_delete':
         del segs[i]
     elif kind == 'seg_dup':
@@ -77,7 +82,7 @@ def mutate(rng, segs, kind):
     elif kind == 'retag_env':
         segs[i] = [rng.choice(['ISA', 'GS', 'ST', 'SE', 'GE', 'IEA', 'TA1'])] + segs[i][1:]
     elif kind == 'extra_ele':
-        segs[i] = segs[i] + ['X'] * rng.choice([1, 2, 30])
+        segs[i] = segs[i] + ['X'] * rng.choice([1, 2, 30, 120])
     elif kind == 'extra_comp':
         if len(segs[i]) < 2:
             return False
@@ -98,6 +103,19 @@ def mutate(rng, segs, kind):
         segs[i] = [segs[i][0].lower()] + segs[i][1:]
     elif kind == 'leading_blank':
         segs[i] = [' ' + segs[i][0]] + segs[i][1:]
+    elif kind == 'odd_value':
+        if len(segs[i]) < 2:
+            return False
+        k = rng.randint(1, len(segs[i]) - 1)
+        segs[i] = list(segs[i])
+        segs[i][k] = rng.choice(['20150301-20150302-20150303', '-', '--', '.', '-.', '1e5', '2004-01-01', '00000000', '99999999-99999999',
+                                 '2460', '-0', '+1', ' 1', '1 ', '\x7f', 'RD8', 'A' * 300, '1.2.3'])
+    elif kind == 'env_short':
+        g = [k for k in body if segs[k][0] in ('ST', 'GS', 'SE', 'GE', 'IEA') and len(segs[k]) > 1]
+        if not g:
+            return False
+        k = rng.choice(g)
+        segs[k] = segs[k][:rng.randint(1, len(segs[k]) - 1)]
     elif kind == 'gs_unknown_map':
         g = [k for k in body if segs[k][0] == 'GS' and len(segs[k]) > 8]
         if not g:
